@@ -254,7 +254,8 @@ fn rejected_inputs() -> Vec<(&'static str, &'static str)> {
 pub fn run(tier: &str) -> i32 {
     let thorough = tier == "thorough";
     let mut rep = Report::new("C11", tier);
-    let docs = documents(thorough);
+    let docs = documents(true);
+    let _ = thorough;
     let lays = layouts_c11();
     let n = docs.len() * lays.len();
     let res = crate::par::run(n, rep.seed as u64, crate::par::deadline_secs(if thorough { 3000 } else { 45 }), Acc::new, |k, acc| {
